@@ -314,6 +314,8 @@ Definition must_be_explicit : list String.string := [
   "breed.prot.mate.util.mat_meiosis"; "breed.prot.mate.util.mat_dh"; "breed.prot.mate.util.mat_mate";
   "core.util.mate.dense_meiosis"; "core.util.mate.dense_dh"; "core.util.mate.dense_cross";
   "breed.prot.pt.G_E_Phenotyping.G_E_Phenotyping.phenotype"; "breed.prot.pt.G_E_Phenotyping.G_E_Phenotyping.__init__";
+  (* the copy routes the class defines: the copy holds the SAME generator (rng = self.rng, "should not be copied") *)
+  "breed.prot.pt.G_E_Phenotyping.G_E_Phenotyping.__copy__"; "breed.prot.pt.G_E_Phenotyping.G_E_Phenotyping.__deepcopy__";
   "core.random.sampling.stochastic_universal_sampling"; "core.random.sampling.tiled_choice";
   "core.random.sampling.axis_shuffle"; "core.random.sampling.outcross_shuffle";
   "breed.prot.sel.cfg.SubsetSelectionConfiguration.SubsetSelectionConfiguration.sample_xconfig";
